@@ -24,13 +24,16 @@ META = {
     "text": "Every string of <= k fragments over the 30-fragment core alphabet (delimiters, whitespace-control signs, "
     "brackets, quotes, backslash, operators, a name, a digit, if/endif), every string of <= k-2 fragments over the "
     "68-fragment keyword alphabet (bare and framed in a block / variable tag), every delete/duplicate/swap/replace "
-    "mutation at distance <= d of the harvested test-suite templates, and every pair of 33 hostile identifiers "
-    "(Python keywords, NFKC-colliding spellings, caller/varargs/kwargs, internal prefixes) in 60 signature / call / "
-    "assignment shapes is loaded through Environment.from_string, Environment.parse and Environment.compile(raw=True) "
+    "mutation at distance <= d of the ~690 harvested test-suite templates, and 42 hostile identifiers "
+    "(Python keywords, NFKC-colliding spellings, non-identifier \\w names, caller/varargs/kwargs, internal prefixes) in 27 "
+    "fixed, 41 one-name and 32 two-name (every ordered pair) signature / call / assignment shapes is loaded through Environment.from_string, Environment.parse and Environment.compile(raw=True) "
     "+ Python compile() under nine configurations (default, ASP-style shared-prefix delimiters, ${ } variables, line "
     "statements + line comments, trim+lstrip, keep_trailing_newline, async, sandboxed, i18n+do+loopcontrols+debug).",
-    "note": "Bounds: quick k=4 default / k=3 other configs, keyword alphabet <=2 (framed <=2), d<=1; thorough k=5 default / k=4 "
-    "elsewhere, keyword alphabet <=3 (framed <=3), d<=2 on the 60 shortest seeds.  Out of scope by construction: "
+    "note": "Bounds: quick k=4 default / k=3 other configs, keyword alphabet <=2 (framed <=2), d<=1 on the 400 shortest seeds "
+    "(40 in the other configs), identifier pairs over 20 (10) names; thorough k=5 default / k=4 elsewhere, keyword alphabet "
+    "<=3 (framed <=3), d<=1 on all seeds (300 shortest in the other configs), d<=2 on the 60 (15) shortest seeds, all pairs.  "
+    "compile(raw)+compile() is skipped only for core-alphabet strings of the maximal length that from_string already "
+    "loaded (same parse/generate/compile steps).  Out of scope by construction: "
     "integer literals beyond the int-to-str digit limit and nesting beyond the recursion limit (both need inputs far "
     "larger than any bound here).  'Renderable' is checked as 'a Template object whose module code compiled'; "
     "rendering belongs to other properties.",
